@@ -135,6 +135,9 @@ func generate(cfg *hx.Config) []hx.Case {
 			if in[3] != "b0" {
 				cfg.Count("banner>0")
 			}
+			if l := in[len(in)-1]; l == "Pq" || l == "Pr" {
+				cfg.Count("post-mortem-probe")
+			}
 			cfg.Count(fmt.Sprintf("phases=%d", len(in)-4))
 			for _, t := range in[4:] {
 				if strings.Contains(t, "f") {
@@ -207,6 +210,25 @@ func generate(cfg *hx.Config) []hx.Case {
 		}
 	}
 
+	// 1c. the target is gone for good while the client keeps its connection and goes on
+	// writing into the former tunnel (raw bytes / a well-formed proxy request)
+	gone := [][]string{
+		{"c5/t6", "c/tf"},
+		{"c5/t6", "c/ta"},
+		{"c5/t6", "c100/tu"},
+		{"c5/t6", "c100x5~1/ta"},
+		{"c5/t6", "c100x5~1/tf"},
+		{"c/ta"},
+		{"c5/t6", "c7/t8", "c/tf"},
+	}
+	for _, v := range vias {
+		for _, g := range gone {
+			for _, pr := range []string{"Pq", "Pr"} {
+				add("probe", append(append([]string{"TUN", v, "e0", "b0"}, g...), pr))
+			}
+		}
+	}
+
 	// 2. early data / banner boundaries around the 4096-byte bufio buffers
 	for _, v := range vias {
 		for _, e := range earlies[3:] {
@@ -230,7 +252,12 @@ func generate(cfg *hx.Config) []hx.Case {
 		for i := 0; i < np; i++ {
 			in = append(in, "c"+maybeWrites(r, big, 3, 4)+"/t"+maybeWrites(r, big, 3, 4))
 		}
-		in = append(in, ending(r, big)...)
+		if r.Chance(1, 8) {
+			// the target goes away, the client stays and keeps writing
+			in = append(in, "c/t", "c/t"+[]string{"f", "a"}[r.Intn(2)], []string{"Pq", "Pr"}[r.Intn(2)])
+		} else {
+			in = append(in, ending(r, big)...)
+		}
 		add("rnd", in)
 	}
 
